@@ -49,7 +49,8 @@ def _call(case):
     if form.get('default_sort'):
         case = dict(case, sort=True)
     chunksize = case['chunksize'] if case['fn'] == 'threading' else None
-    ctl = Controller(xs, case['threads'], chunksize, case['priority'], case.get('raising', ()), exc=case.get('exc', 'Boom'))
+    ctl = Controller(xs, case['threads'], chunksize, case['priority'], case.get('raising', ()), exc=case.get('exc', 'Boom'),
+                     returning_exc=case.get('ret_exc', ()))
     arg = (x for x in xs) if case.get('gen') else list(xs)
     result, error = None, None
     import asyncio
@@ -151,7 +152,7 @@ def eval_case(case, rec):
             raise Violation('spurious-exception', dict(info, error=repr(error)))
         if calls != list(range(n)):
             raise Violation('f-not-called-once-per-element', info)
-        want = [out_of(x) for x in xs]
+        want = [ctl.returned[i] if i in ctl.returned else out_of(x) for i, x in enumerate(xs)]
         if not isinstance(result, list):
             raise Violation('result-not-list', dict(info, result=repr(result)))
         sort = case['sort'] if case['fn'] == 'threading' else True
@@ -163,7 +164,7 @@ def eval_case(case, rec):
             if len(result) != len(want):
                 raise Violation('result-length', dict(info, result=result, want=want))
             for lo in range(0, n, cs):
-                if sorted(result[lo:lo + cs]) != sorted(want[lo:lo + cs]):
+                if sorted(result[lo:lo + cs], key=repr) != sorted(want[lo:lo + cs], key=repr):
                     raise Violation('chunk-not-permutation', dict(info, result=result, want=want, chunk_at=lo))
     else:
         if error is None:
@@ -180,6 +181,8 @@ def eval_case(case, rec):
             inv = True
             break
     cl = [case['fn'], 'inversion' if inv else 'in-order', 'threads=1' if case['threads'] == 1 else 'threads>1']
+    if case.get('ret_exc'):
+        cl.append('returns-exception-objects')
     if raising:
         cl.append('raising')
         cl.append('raising:' + case.get('exc', 'Boom'))
@@ -211,12 +214,13 @@ def cases(draw):
         raising = sorted(draw(st.sets(st.integers(0, n - 1), min_size=1, max_size=3)))
     none_at = draw(st.one_of(st.none(), st.none(), st.integers(0, 40)))
     exc = draw(st.sampled_from(['Boom', 'Boom', 'Stop', 'Key']))
+    ret_exc = sorted(draw(st.sets(st.integers(0, n - 1), max_size=2))) if n and draw(st.integers(0, 4)) == 0 else []
     # call forms: progress bar on (the default), sort / chunksize left at their defaults, total=, desc=, parallel_starmap
     form = {k: draw(st.integers(0, 3)) == 0 for k in ('tqdm', 'default_sort', 'default_chunksize', 'total', 'desc', 'starmap')}
     if draw(st.booleans()):
         form = {}
     return {'fn': fn, 'n': n, 'none_at': none_at, 'gen': draw(st.booleans()), 'threads': threads, 'chunksize': chunksize, 'sort': sort,
-            'priority': list(priority), 'raising': raising, 'form': form, 'exc': exc}
+            'priority': list(priority), 'raising': raising, 'form': form, 'exc': exc, 'ret_exc': ret_exc}
 
 
 # ---- chunked -------------------------------------------------------------------------------------
